@@ -176,6 +176,13 @@ def mergeWhile (c : Cmp α) (L R : List α) (len1 len2 : Nat) : Nat → List α 
       sliceFrom L i >>= fun l' => cloneFromSlice a k (k + len1 - i) l' >>= fun a' =>
       sliceFrom R j >>= fun r' => cloneFromSlice a' (k + len1 - i) (k + len1 - i + len2 - j) r'
 
+/-- the remainder copies of `merge` **as pinned** (before `fixes/C10-timsort-merge.diff`):
+`arr[k..k+len1] <- left_arr[i..]`, `arr[k+len1..k+len1+len2] <- right_arr[j..]`.  Not used by the model of the
+repaired code; kept to state that these two statements panic on every exit of the merge loop (`Props/C10.lean`). -/
+def pinnedMergeTail (L R : List α) (len1 len2 : Nat) (a : List α) (i j k : Nat) : Res (List α) :=
+  sliceFrom L i >>= fun l' => cloneFromSlice a k (k + len1) l' >>= fun a' =>
+  sliceFrom R j >>= fun r' => cloneFromSlice a' (k + len1) (k + len1 + len2) r'
+
 /-- `merge(arr, left, mid, right)` -/
 def mergeRuns (c : Cmp α) (a : List α) (left mid right : Nat) : Res (List α) :=
   let len1 := mid - left + 1
